@@ -204,7 +204,7 @@ def gen_case(rng, i, tier):
     nrow_h = B if mode == "both" else 1
     tree, h = sim_tree(rng, tips, logu(rng, 0.3, 8), digits)
     burst = None
-    if kind in ("skyride", "skygrid") and rng.random() < 0.2:
+    if kind in ("skyride", "skygrid") and rng.random() < (0.5 if mode == "single" else 0.15):
         # a deep tree in which one coalescence follows the previous event almost at once (a resolved polytomy): one
         # statistic is ten or more orders of magnitude below the running total of the others
         f = rng.choice([50.0, 200.0, 1000.0])
